@@ -548,7 +548,14 @@ class Segment:
             tags.extend(fentry["tags"])
         if fentry and fentry.get("gen", 0) >= 2:
             tags.append("hist.gen_ge2")
-        reader = rcls(self.libpath(op))
+        rkey = "R:%s:%s:%s" % (fmt, rel, op.get("pathstyle", "abs"))
+        if op.get("reader") == "reuse" and rkey in self.objects:
+            reader = self.objects[rkey]
+            tags.append("hist.reader_reused")
+            self.probe("reader_object_reused")
+        else:
+            reader = rcls(self.libpath(op))
+            self.objects[rkey] = reader
         self.disk.begin_op(fault)
         model = None
         exc = None
@@ -661,6 +668,15 @@ class Segment:
                         expect_ref = expect["ref"]
                 elif expect["kind"] == "stats":
                     self.check_stats(expect["stats"], model, site, tags, negprop)
+            doc_ref = None
+            if state == "peer" and fentry["expect"]["kind"] == "model":
+                doc_ref = fentry["expect"]["ref"]
+            elif state == "clean" and src_ref is not None and fentry.get("fmt") == fmt and \
+                    fentry.get("frag") == fmt and not fentry.get("tainted"):
+                doc_ref = src_ref
+            if doc_ref is not None and observed is not None and \
+                    len(doc_ref["ctcs"]) == len(model.ctcs):
+                self.check_ctc_names(doc_ref, model, site, tags)
             if handle is not None and observed is not None:
                 ref = expect_ref if (expect_ref is not None and not taint) else observed
                 frm = None
@@ -685,6 +701,37 @@ class Segment:
             elif state in ("torn", "corrupt", "partial", "missing") or \
                     (state == "peer" and fentry["expect"]["kind"] == "raise"):
                 self.probe("damaged_document_rejected")
+
+    def check_ctc_names(self, doc_ref, model, site, tags):
+        """C02: asking a constraint for its features returns exactly the feature names written
+        in it (in the document).  Constraints are matched one-to-one by name set; operands of
+        aggregate functions may or may not be reported."""
+        want = []
+        for ctc in doc_ref["ctcs"]:
+            allnames = sorted(rm.expr_names(ctc["e"]))
+            core = sorted(self.bridge._names_outside_aggregates(ctc["e"]))
+            want.append((core, allnames))
+        got = []
+        for ctc in model.ctcs:
+            try:
+                got.append(sorted(set(ctc.get_features())))
+            except Exception:  # noqa: BLE001
+                return
+        used = [False] * len(got)
+        for core, allnames in want:
+            hit = -1
+            for j, names in enumerate(got):
+                if not used[j] and all(n in names for n in core) and \
+                        all(n in allnames for n in names):
+                    hit = j
+                    break
+            if hit < 0:
+                self.fail("C02", "wf.get_features_vs_document", site,
+                          "no constraint of the model reports the feature names %r written in "
+                          "the document; reported: %r" % (core, got[:4]), tags)
+                return
+            used[hit] = True
+        self.probe("ctc_names_vs_document_checked")
 
     def check_stats(self, stats, model, site, tags, prop):
         feats = model.get_features()
